@@ -4,9 +4,17 @@ Generator: pattern recipes (depth <= 3) over literals, types, lists/sets/frozens
 alternatives, tuples, dicts with literal / type / Optional(+default) / Required / predicate /
 compound keys, Regex, predicates, And/Or/Not and M comparisons; targets in three families:
 derived from the pattern (conforming by construction), one-edit mutations of those (near
-misses), unrelated values.
+misses), unrelated values.  Two constructed classes on top (each with distribution floors):
+  * incomparable: an M comparison whose operands Python cannot order ('a' > 0, None >= 1, M(T['k']) > 0 on {'k': 'a'})
+    as the whole pattern, as the first alternative of Or / of a list, as a dict key in front of a type key, under
+    Not, inside And below a list of dicts, in a tuple; with and without Match(default=)
+  * regex-crosstype: Regex built from a str / bytes pattern, given as text or PRE-COMPILED (re.compile), applied to
+    the same text in the other string type; bare, inside Or / list alternatives / Not / And / a dict value, with and
+    without Match(default=)
 
-Oracle: refmatch() - the documented rules only.
+Oracle: refmatch() - the documented rules only.  A comparison that cannot be evaluated and a Regex applied to the
+other string type are "this alternative does not match" (MatchError; the next alternative / Not / default= react),
+exactly like a predicate that raises.
 """
 import re
 import functools
@@ -22,17 +30,29 @@ from .. import targets as tg
 PROPERTY = 'C09'
 RULE = ('patterns: recursive recipes (depth <= 3) over the documented Match constructs; targets: 40% derived from the '
         'pattern (conforming), 40% one-edit mutations of a conforming target, 20% unrelated. '
+        'Constructed on top (2 of 21 root draws each): an M comparison on operands Python cannot order (bare / first '
+        'alternative of Or or of a list / dict key / Not / And / tuple), and Regex from a str or bytes pattern, given as '
+        'text or compiled, on the other string type (bare / Or / list / Not / And / dict value); a third of them with default=. '
         'Non-trivial = pattern depth >= 2 or a dict pattern with >= 2 kinds of key. Distribution floors: '
-        'accepted >= 20%, rejected >= 20%, near-miss >= 25%.')
+        'accepted >= 20%, rejected >= 20%, near-miss >= 25%, incomparable comparison met by the reference >= 2.5% (accepted '
+        'through another alternative / Not >= 1.5%, rejected >= 1.1%, with default= >= 0.8%), compiled cross-type Regex met '
+        '>= 1.1% (accepted >= 0.4%, rejected >= 0.5%, with default= >= 0.35%).')
 ASSUMPTIONS = [
     'reference matcher refmatch() implements only the documented rules (types by isinstance, list/set element-wise '
     'against any alternative, tuples positionally, dict keys in spec order, == otherwise)',
     'TypeError-ness of a rejection is asserted only when no alternative/Or/Not lies between the failing type rule and the root',
     'patterns with two Optional keys for the same key are not generated',
+    'an M comparison that Python cannot evaluate (it raises) does not hold: the target does not conform to THIS '
+    'alternative (MatchError), later alternatives / Not / default= react - the statement knows only "conforms" and '
+    '"otherwise MatchError", and M documents "If a comparison fails, MatchError is thrown"',
+    'a Regex (pattern given as text or pre-compiled) applied to a str/bytes target of the other string type does not match',
+    'mismatch kind foreign-exception[-m-incomparable][-regex-crosstype]: glom raised something that is neither a '
+    'MatchError nor a PathAccessError; the suffix names what the REFERENCE met while deciding (own buckets, so that one '
+    'such defect cannot starve the report of another)',
 ]
 
 TYPES = {'int': int, 'str': str, 'float': float, 'bool': bool, 'object': object, 'NoneType': type(None),
-         'list': list, 'dict': dict, 'tuple': tuple}
+         'list': list, 'dict': dict, 'tuple': tuple, 'bytes': bytes}
 
 
 class Pred(object):
@@ -66,7 +86,7 @@ PREDS = {
 PRED_SAMPLE = {'isint': ['i', 4], 'pos': ['i', 2], 'shortstr': ['s', 'q'], 'never': ['none'], 'rawpos': ['i', 3], 'partialpos': ['i', 6]}
 TYPE_SAMPLE = {'int': ['i', 3], 'str': ['s', 'st'], 'float': ['f', 2.5], 'bool': ['b', True], 'object': ['s', 'o'],
                'NoneType': ['none'], 'list': ['list', [['i', 1]]], 'dict': ['dict', [['z', ['i', 1]]]],
-               'tuple': ['tuple', [['i', 1]]]}
+               'tuple': ['tuple', [['i', 1]]], 'bytes': ['bytes', 'by']}
 # pattern -> conforming samples.  Ordered alternations whose earlier branch is a prefix of a later one and lazy
 # quantifiers need backtracking to span the whole target (a match at position 0 that stops early is not a full match)
 REGEXES = {'ab+': ['abb'], '[0-9]+': ['42'], '(?P<w>x+)y': ['xxy'], 'a|ab': ['a', 'ab'], '1|10': ['10', '1'],
@@ -75,6 +95,9 @@ REGEXES = {'ab+': ['abb'], '[0-9]+': ['42'], '(?P<w>x+)y': ['xxy'], 'a|ab': ['a'
 LITS = [['i', 0], ['i', 1], ['i', 2], ['s', 'a'], ['s', 'b'], ['s', ''], ['none'], ['f', 1.5], ['b', True],
         ['tuple', [['i', 1]]], ['s', 'c']]
 HASHABLE_KEYS = ['a', 'b', 'c', 1]
+ORDER_OPS = ['>', '<', '>=', '<=']
+RE_MODES = ['str', 'cstr', 'bytes', 'cbytes']      # pattern given as text / re.compile(text) / bytes / re.compile(bytes)
+TAG_TYPE = {'s': 'str', 'i': 'int', 'f': 'float', 'none': 'NoneType', 'list': 'list', 'dict': 'dict', 'bytes': 'bytes'}
 
 
 def lit_val(l):
@@ -109,7 +132,7 @@ def gen_pat(draw, d):
     if r < 74:
         return ['tuple', [gen_pat(draw, d - 1) for _ in range(draw(st.integers(0, 3)))]]
     if r < 78:
-        return ['regex', draw(st.sampled_from(sorted(REGEXES)))]
+        return ['regex', draw(st.sampled_from(sorted(REGEXES))), draw(st.sampled_from(['str', 'str', 'str'] + RE_MODES))]
     if r < 83:
         return [draw(st.sampled_from(['and', 'or'])), [gen_pat(draw, d - 1) for _ in range(draw(st.integers(1, 3)))]]
     if r < 85:
@@ -136,6 +159,9 @@ def gen_pat(draw, d):
             k = ['req', ['type', draw(st.sampled_from(['str', 'int', 'object']))]]
         elif kk < 78 and kk >= 74 or kk in (88, 89):
             k = ['kf', ['a', 'b', 1]]         # frozenset of constants: matches every frozenset key made of these
+        elif kk in (90, 91, 92):
+            # an M comparison as a key pattern: no equality key, so optional
+            k = ['km', draw(st.sampled_from(['==', '!=', '>', '<', '>=', '<='])), draw(st.sampled_from([['i', 1], ['i', 5], ['s', 'a']]))]
         elif kk < 96:
             # (plain callables are not generated as dict KEYS: the property's domain lists literal, type,
             # Optional, Required and compound keys; glom classes a callable key as an "== constant")
@@ -164,6 +190,8 @@ def key_sample(draw, k):
                 'object': draw(st.sampled_from(['o1', 7]))}[k[1]]
     if tag == 'pred':
         return {'isint': draw(st.sampled_from([8, 9])), 'shortstr': draw(st.sampled_from(['q', 'r']))}[k[1]]
+    if tag == 'km':
+        return _m_sample(k[1], k[2])[1]
     if tag == 'kf':
         n_ = draw(st.integers(0, 2))
         return ['fs', draw(st.lists(st.sampled_from(k[1]), min_size=n_, max_size=n_, unique=True))]
@@ -178,6 +206,18 @@ def key_sample(draw, k):
     raise ValueError(k)
 
 
+def re_mode(p):
+    return p[2] if len(p) > 2 else 'str'
+
+
+def _m_sample(op, lit):
+    """a scalar recipe for which `it <op> lit` holds"""
+    v = lit_val(lit)
+    if isinstance(v, str):
+        return {'==': ['s', v], '!=': ['s', v + 'x'], '>': ['s', v + 'x'], '<': ['s', ''], '>=': ['s', v], '<=': ['s', v]}[op]
+    return {'==': ['i', v], '!=': ['i', v + 1], '>': ['i', v + 1], '<': ['i', v - 1], '>=': ['i', v], '<=': ['i', v]}[op]
+
+
 def gen_from(draw, p):
     """target recipe conforming to pattern p (best effort, by construction)"""
     tag = p[0]
@@ -188,7 +228,7 @@ def gen_from(draw, p):
     if tag == 'pred':
         return PRED_SAMPLE[p[1]]
     if tag == 'regex':
-        return ['s', draw(st.sampled_from(REGEXES[p[1]]))]
+        return ['s' if re_mode(p) in ('str', 'cstr') else 'bytes', draw(st.sampled_from(REGEXES[p[1]]))]
     if tag in ('list', 'set', 'fset'):
         ttag = tag
         if not p[1]:
@@ -201,10 +241,7 @@ def gen_from(draw, p):
     if tag == 'not':
         return ['s', 'zzz']
     if tag == 'm':
-        v = lit_val(p[2])
-        if isinstance(v, str):
-            return {'==': ['s', v], '!=': ['s', v + 'x'], '>': ['s', v + 'x'], '<': ['s', ''], '>=': ['s', v], '<=': ['s', v]}[p[1]]
-        return {'==': ['i', v], '!=': ['i', v + 1], '>': ['i', v + 1], '<': ['i', v - 1], '>=': ['i', v], '<=': ['i', v]}[p[1]]
+        return _m_sample(p[1], p[2])
     if tag == 'mt':
         v = p[3][1]
         val = {'==': v, '!=': v + 1, '>': v + 1}[p[2]]
@@ -232,6 +269,8 @@ def mutate(draw, t):
     r = draw(st.integers(0, 9))
     if tag == 's' and r < 3:
         return ['bytes', t[1]]        # the same text as bytes: a str pattern / literal does not match it
+    if tag == 'bytes' and r < 3:
+        return ['s', t[1]]            # and the other way round
     if tag == 'dict' and t[1] and r < 7:
         entries = [list(e) for e in t[1]]
         i = draw(st.integers(0, len(entries) - 1))
@@ -270,8 +309,110 @@ def mutate(draw, t):
                                         ['dict', [['a', ['i', 1]]]], ['s', 'abb'], ['i', 7]]))
 
 
+def _other_type(name):
+    return 'int' if name != 'int' else 'str'
+
+
+def gen_incomparable(draw):
+    """an M comparison whose operands Python cannot order, placed where the documented reaction differs: the whole
+    pattern (MatchError), a non-last alternative (the next one decides), a dict key pattern (the next key pattern
+    decides), Not (holds), And / tuple / nested containers (MatchError)"""
+    shape = draw(st.sampled_from(['bare', 'or', 'or', 'or-miss', 'list', 'list', 'dict-key', 'dict-key', 'dict-key-req',
+                                  'not', 'and-dict', 'tuple']))
+    op = draw(st.sampled_from(ORDER_OPS))
+    if shape.startswith('dict-key'):
+        rhs, bad = draw(st.sampled_from([(['i', 0], ['s', 'a']), (['i', 1], ['s', 'zz']), (['s', 'a'], ['i', 5])]))
+        atom_key = ['km', op, rhs]
+        good = _m_sample(op, rhs)
+        wild = TAG_TYPE[bad[0]] if draw(st.booleans()) else 'object'
+        entries = [[['req', atom_key] if shape == 'dict-key-req' else atom_key, ['type', 'int']], [['type', wild], ['type', 'int']]]
+        items = [[bad[1], ['i', 1]]]
+        if draw(st.booleans()):
+            items.insert(draw(st.sampled_from([0, 1])), [good[1], ['i', 2]])     # a key for which the comparison holds
+        return ['dict', entries], ['dict', items], shape
+    if draw(st.sampled_from(range(4))) == 0:
+        # the comparison inside M(T[...]) > n: the element reached is no number
+        seg = draw(st.sampled_from(['k', 0]))
+        atom = ['mt', seg, '>', ['i', draw(st.sampled_from(range(3)))]]
+        leaf = draw(st.sampled_from([['s', 'a'], ['none'], ['list', []]]))
+        bad = ['dict', [['k', leaf]]] if seg == 'k' else ['list', [leaf]]
+        good = gen_from(draw, atom)
+    else:
+        rhs = draw(st.sampled_from(LITS[:3] + [['s', 'a'], ['s', 'b']]))
+        atom = ['m', op, rhs]
+        if rhs[0] == 'i':
+            bad = draw(st.sampled_from([['s', 'a'], ['s', ''], ['none'], ['list', []], ['dict', []], ['s', 'zzz']]))
+        else:
+            bad = draw(st.sampled_from([['i', 1], ['none'], ['f', 1.5], ['i', 0], ['list', []]]))
+        good = _m_sample(op, rhs)
+    btype, gtype = TAG_TYPE[bad[0]], TAG_TYPE[good[0]]
+    if shape == 'bare':
+        return atom, bad, shape
+    if shape == 'or':
+        alt = draw(st.sampled_from([['type', btype], ['lit', bad], ['type', 'object']])) if bad[0] not in ('list', 'dict') \
+            else ['type', btype]
+        return ['or', [atom, alt]], bad, shape
+    if shape == 'or-miss':
+        return ['or', [atom, ['type', _other_type(btype)]]], bad, shape
+    if shape == 'list':
+        items = [bad] + [draw(st.sampled_from([bad, good])) for _ in range(draw(st.sampled_from(range(3))))]
+        if draw(st.booleans()):
+            items.reverse()
+        return ['list', [atom, ['type', btype]]], ['list', items], shape
+    if shape == 'not':
+        return ['not', atom], bad, shape
+    if shape == 'and-dict':
+        # the pattern of the Match docstring: [{'id': And(M > 0, int), ...}] with a near-miss item
+        p = ['list', [['dict', [[['lit', 'a'], ['and', [atom, ['type', gtype]]]], [['type', 'str'], ['type', 'object']]]]]]
+        rows = [['dict', [['a', bad]]]]
+        if draw(st.booleans()):
+            rows.insert(0, ['dict', [['a', good], ['zz', ['none']]]])
+        return p, ['list', rows], shape
+    assert shape == 'tuple', shape
+    return ['tuple', [atom, ['type', 'str']]], ['tuple', [bad, ['s', 's']]], shape
+
+
+def gen_regex_crosstype(draw):
+    """Regex from a str / bytes pattern, as text or pre-compiled, applied to a conforming text of the OTHER string type"""
+    pat = draw(st.sampled_from(sorted(REGEXES)))
+    mode = draw(st.sampled_from(['cstr', 'cbytes', 'cstr', 'cbytes', 'str', 'bytes']))
+    atom = ['regex', pat, mode]
+    text = draw(st.sampled_from(REGEXES[pat]))
+    same, other = ('s', 'bytes') if mode in ('str', 'cstr') else ('bytes', 's')
+    bad, good = [other, text], [same, text]
+    shape = draw(st.sampled_from(['bare', 'or', 'or', 'or-miss', 'list', 'not', 'and', 'dict-val']))
+    if shape == 'bare':
+        return atom, bad, shape
+    if shape == 'or':
+        return ['or', [atom, draw(st.sampled_from([['type', TAG_TYPE[other]], ['lit', bad]]))]], bad, shape
+    if shape == 'or-miss':
+        return ['or', [atom, ['type', TAG_TYPE[same]]]], bad, shape
+    if shape == 'list':
+        items = [bad] + [draw(st.sampled_from([bad, good])) for _ in range(draw(st.sampled_from(range(3))))]
+        if draw(st.booleans()):
+            items.reverse()
+        return ['list', [atom, ['type', TAG_TYPE[other]]]], ['list', items], shape
+    if shape == 'not':
+        return ['not', atom], bad, shape
+    if shape == 'and':
+        return ['and', [['type', TAG_TYPE[other]], atom]], bad, shape
+    assert shape == 'dict-val', shape
+    return ['dict', [[['lit', 'a'], atom], [['type', 'str'], ['type', 'object']]]], \
+        ['dict', [['a', bad]] + ([['zz', good]] if draw(st.booleans()) else [])], shape
+
+
 def gen(draw):
-    special = draw(st.sampled_from(range(16)))
+    special = draw(st.sampled_from(range(21)))
+    if special in (2, 3, 4, 5):
+        if special >= 4:
+            name = 'regex-crosstype'
+            p, t, shape = gen_regex_crosstype(draw)
+        else:
+            name = 'incomparable'
+            p, t, shape = gen_incomparable(draw)
+        # (the target is a conforming one with one leaf replaced: a near miss by construction)
+        return {'pattern': p, 'target': t, 'family': 'near-miss', 'default': draw(st.sampled_from([False, False, True])),
+                'cls': name + ':' + shape}
     if special == 0:
         # an Optional(lit, default=d) listed AFTER a wildcard key that takes the same target key first: the value of
         # the target stays, the default is for absent keys only
@@ -324,7 +465,16 @@ def build_key(k):
         return tuple(build_key(x) for x in k[1])
     if tag == 'kf':
         return frozenset(k[1])
+    if tag == 'km':
+        return build_pat(['m', k[1], k[2]])
     raise ValueError(k)
+
+
+def re_source(p):
+    """what Regex() is given: the text, the text as bytes, or either of them compiled"""
+    mode = re_mode(p)
+    src = p[1] if mode in ('str', 'cstr') else p[1].encode('latin1')
+    return re.compile(src) if mode in ('cstr', 'cbytes') else src
 
 
 def build_pat(p):
@@ -336,7 +486,7 @@ def build_pat(p):
     if tag == 'pred':
         return PREDS[p[1]]
     if tag == 'regex':
-        return Regex(p[1])
+        return Regex(re_source(p))
     if tag == 'list':
         return [build_pat(x) for x in p[1]]
     if tag == 'set':
@@ -375,11 +525,17 @@ class Mis(Exception):
         self.why, self.is_type, self.sure, self.access = why, is_type, sure, access
 
 
-class RefRaise(Exception):
-    """the Python comparison itself raised: glom must raise the same class"""
-    def __init__(self, exc):
-        Exception.__init__(self, exc)
-        self.exc = exc
+def ref_compare(lhs, op, rhs, ev):
+    """`lhs <op> rhs` as Python decides it.  A comparison Python cannot evaluate (it raises: 'a' > 0) does not hold -
+    the target does not conform to this alternative, like with a predicate that raises (recorded in ev)"""
+    try:
+        ok = {'==': lambda: lhs == rhs, '!=': lambda: lhs != rhs, '>': lambda: lhs > rhs, '<': lambda: lhs < rhs,
+              '>=': lambda: lhs >= rhs, '<=': lambda: lhs <= rhs}[op]()
+    except Exception:
+        ev.add('m-incomparable')
+        raise Mis('m-raises')
+    if not ok:
+        raise Mis('m')
 
 
 def key_is_equality(k):
@@ -391,9 +547,12 @@ def key_is_equality(k):
     return False
 
 
-def ref_key(key, k):
+def ref_key(key, k, ev):
     """match a target key against key pattern k; returns the (possibly rebuilt) key"""
     tag = k[0]
+    if tag == 'km':
+        ref_compare(key, k[1], lit_val(k[2]), ev)
+        return key
     if tag in ('lit', 'opt', 'optd'):
         if key != k[1]:
             raise Mis('key-eq')
@@ -403,7 +562,7 @@ def ref_key(key, k):
             raise Mis('key-eq')
         return key
     if tag == 'req':
-        return ref_key(key, k[1])
+        return ref_key(key, k[1], ev)
     if tag == 'type':
         if not isinstance(key, TYPES[k[1]]):
             raise Mis('key-type', True)
@@ -424,11 +583,13 @@ def ref_key(key, k):
             raise Mis('key-type', True)
         if len(key) != len(k[1]):
             raise Mis('key-len')
-        return tuple(ref_key(a, b) for a, b in zip(key, k[1]))
+        return tuple(ref_key(a, b, ev) for a, b in zip(key, k[1]))
     raise ValueError(k)
 
 
-def refmatch(t, p):
+def refmatch(t, p, ev):
+    """the value Match(p) returns for t, or Mis.  ev (a set) collects what the reference met on the way:
+    'm-incomparable', 'regex-crosstype', 'regex-crosstype-compiled'"""
     tag = p[0]
     if tag == 'type':
         if not isinstance(t, TYPES[p[1]]):
@@ -444,10 +605,10 @@ def refmatch(t, p):
         for key, val in t.items():
             for i, (k, vp) in enumerate(entries):
                 try:
-                    nk = ref_key(key, k)
+                    nk = ref_key(key, k, ev)
                 except Mis:
                     continue
-                res[nk] = refmatch(val, vp)      # the first key that matches decides the value pattern
+                res[nk] = refmatch(val, vp, ev)      # the first key that matches decides the value pattern
                 if i in required:
                     required.remove(i)
                 break
@@ -469,7 +630,7 @@ def refmatch(t, p):
             last = None
             for alt in alts:
                 try:
-                    out.append(refmatch(item, alt))
+                    out.append(refmatch(item, alt, ev))
                     break
                 except Mis as m:
                     last = m
@@ -483,7 +644,7 @@ def refmatch(t, p):
             raise Mis('type', True)
         if len(t) != len(p[1]):
             raise Mis('len')
-        return tuple(refmatch(a, b) for a, b in zip(t, p[1]))
+        return tuple(refmatch(a, b, ev) for a, b in zip(t, p[1]))
     if tag == 'pred':
         try:
             ok = PREDS[p[1]](t)
@@ -495,51 +656,45 @@ def refmatch(t, p):
     if tag == 'regex':
         if type(t) not in (str, bytes):
             raise Mis('regex-type')
-        if type(t) is not str or not re.fullmatch(p[1], t):
+        mode = re_mode(p)
+        if (mode in ('str', 'cstr')) != (type(t) is str):
+            # a str pattern cannot match bytes and vice versa, however the pattern was handed to Regex
+            ev.add('regex-crosstype')
+            if mode in ('cstr', 'cbytes'):
+                ev.add('regex-crosstype-compiled')
+            raise Mis('regex-crosstype')
+        if not re.fullmatch(p[1] if type(t) is str else p[1].encode('latin1'), t):
             raise Mis('regex')
         return t
     if tag == 'and':
         res = t
         for c in p[1]:
-            res = refmatch(t, c)
+            res = refmatch(t, c, ev)
         return res
     if tag == 'or':
         last = None
         for c in p[1]:
             try:
-                return refmatch(t, c)
+                return refmatch(t, c, ev)
             except Mis as m:
                 last = m
         raise Mis(last.why, last.is_type, last.sure and len(p[1]) == 1, last.access)
     if tag == 'not':
         try:
-            refmatch(t, p[1])
+            refmatch(t, p[1], ev)
         except Mis:
             return t
         raise Mis('not', False, True)
     if tag == 'm':
-        v = lit_val(p[2])
-        try:
-            ok = {'==': lambda: t == v, '!=': lambda: t != v, '>': lambda: t > v, '<': lambda: t < v,
-                  '>=': lambda: t >= v, '<=': lambda: t <= v}[p[1]]()
-        except Exception as e:
-            raise RefRaise(e)
-        if ok:
-            return t
-        raise Mis('m')
+        ref_compare(t, p[1], lit_val(p[2]), ev)
+        return t
     if tag == 'mt':
         try:
             sub = t[p[1]]
         except (KeyError, IndexError, TypeError):
             raise Mis('access', access=True)
-        v = p[3][1]
-        try:
-            ok = {'==': lambda: sub == v, '!=': lambda: sub != v, '>': lambda: sub > v}[p[2]]()
-        except Exception as e:
-            raise RefRaise(e)
-        if ok:
-            return t
-        raise Mis('m')
+        ref_compare(sub, p[2], p[3][1], ev)
+        return t
     if tag == 'lit':
         if t != lit_val(p[1]):
             raise Mis('eq')
@@ -599,6 +754,10 @@ def depth(p):
     return 0
 
 
+def _exp_text(exp):
+    return 'the result %r' % (exp[1],) if exp[0] == 'ok' else 'a MatchError (%s)' % exp[1].why
+
+
 def check(recipe, ctx):
     p = recipe['pattern']
     pat = build_pat(p)
@@ -606,27 +765,25 @@ def check(recipe, ctx):
     snap = tg.snapshot(target)
     struct = tg.structure(target)
     ctx.label('family-' + recipe['family'])
+    if recipe.get('cls'):
+        ctx.label('cls-' + recipe['cls'].split(':')[0], 'cls-' + recipe['cls'])
+    ev = set()
     try:
-        exp = ('ok', refmatch(target, p))
+        exp = ('ok', refmatch(target, p, ev))
     except Mis as m:
         exp = ('mis', m)
-    except RefRaise as rr:
-        exp = ('raise', rr.exc)
     ctx.label('exp-' + exp[0])
+    for e_ in sorted(ev):
+        ctx.label(e_, e_ + '+' + exp[0])
+        if recipe['default']:
+            ctx.label(e_ + '+default')
+    # a bucket of its own for exceptions that are no rejection at all, named after what the reference met
+    foreign_kind = 'foreign-exception' + ''.join('-' + e_ for e_ in sorted(ev & {'m-incomparable', 'regex-crosstype'}))
     if "'mt'" in repr(p):
         ctx.label('has-M(T)')
     keykinds = set(k[0] for k, _ in p[1]) if p[0] == 'dict' else set()
     ctx.nontrivial(depth(p) >= 2 or len(keykinds) >= 2)
     where = 'pattern=%r target=%r' % (pat, target)
-    if exp[0] == 'raise':
-        try:
-            glom.glom(target, Match(pat))
-        except Exception as e:
-            if not isinstance(e, type(exp[1])):
-                raise Mismatch('comparison-error-class', '%s: comparison raises %r, glom raised %r' % (where, exp[1], e))
-            ctx.outcome('raise')
-            return
-        raise Mismatch('comparison-error-swallowed', '%s: comparison raises %r but Match succeeded' % (where, exp[1]))
     DEFAULT = ['default-object']
     spec = Match(pat, default=DEFAULT) if recipe['default'] else Match(pat)
     has_mt = "'mt'" in repr(p)
@@ -634,6 +791,9 @@ def check(recipe, ctx):
         got = ('ok', glom.glom(target, spec))
     except GlomError as e:
         got = ('mis', e)
+        if not isinstance(e, (MatchError, glom.PathAccessError)):
+            raise Mismatch(foreign_kind, '%s: expected %s; glom raised %s: %r (neither a MatchError nor a failed access)'
+                           % (where, _exp_text(exp), type(e).__name__, e.args))
         if exp[0] == 'mis':
             m_ = exp[1]
             if m_.sure and m_.access:
@@ -646,8 +806,8 @@ def check(recipe, ctx):
                 raise Mismatch('wrong-rejection-class', '%s: rejected (%s); glom raised %s: %r'
                                % (where, m_.why, type(e).__name__, e.args))
     except Exception as e:
-        raise Mismatch('wrong-rejection-class', '%s: expected %s; glom raised %s: %r (not a GlomError)'
-                       % (where, exp[0], type(e).__name__, e.args))
+        raise Mismatch(foreign_kind, '%s: expected %s; glom raised %s: %r (not a GlomError)'
+                       % (where, _exp_text(exp), type(e).__name__, e.args))
     if recipe['default']:
         ctx.label('with-default')
         if exp[0] == 'ok':
@@ -725,5 +885,11 @@ CLASSIFIERS = {}
 
 SUBS = [
     Sub('match', check, gen=gen, quick=8000, thorough=40000,
-        floors={'exp-ok': 0.2, 'exp-mis': 0.2, 'family-near-miss': 0.25}),
+        floors={'exp-ok': 0.2, 'exp-mis': 0.2, 'family-near-miss': 0.25,
+                # what the reference met while deciding (constructed classes plus what the general generator adds)
+                'm-incomparable': 0.025, 'm-incomparable+ok': 0.015, 'm-incomparable+mis': 0.011,
+                'm-incomparable+default': 0.008,
+                'regex-crosstype-compiled': 0.011, 'regex-crosstype-compiled+ok': 0.004,
+                'regex-crosstype-compiled+mis': 0.005, 'regex-crosstype-compiled+default': 0.0035,
+                'cls-incomparable': 0.022, 'cls-regex-crosstype': 0.012}),
 ]
